@@ -142,6 +142,7 @@ class State(object):
         s.peak_heap = 0
         s.switch = False
         s.watch = {}         # object base -> [lo, hi, set(written offsets), tag]
+        s.cmodel = None      # concolic mode: concrete witness {var name: value} whose path is followed
 
     def fork(s):
         n = State.__new__(State)
@@ -175,6 +176,7 @@ class State(object):
         n.peak_heap = s.peak_heap
         n.switch = s.switch
         n.watch = {k: [v[0], v[1], set(v[2]), v[3]] for k, v in s.watch.items()}
+        n.cmodel = s.cmodel
         return n
 
     # ---- objects
@@ -332,6 +334,8 @@ class Executor(object):
         s.on_path_end = None
         s.keep_states = True
         s.tape = None
+        s.concolic_tape = None
+        s.alloc_policy = None
         import models as MD
         MD.install(s)
         if models:
@@ -356,6 +360,8 @@ class Executor(object):
 
     def run(s, entry, args=()):
         st = s.initial_state()
+        if s.concolic_tape is not None:
+            st.cmodel = {}
         th = Thread(0)
         th.name = 'main'
         st.threads.append(th)
@@ -515,6 +521,12 @@ class Executor(object):
             return v2
         s.concretize(st, v2, what)
 
+    def pin_eq(s, st, c):
+        """a path constraint of the form  term == constant  becomes a substitution"""
+        if type(c) is E and c.op == 'eq' and type(c.a[0]) is not E and type(c.a[1]) is E:
+            st.sub[c.a[1]] = c.a[0]
+            st.submemo = {}
+
     def pin_stale(s, st, e, what):
         """values the library is supposed to derive itself (harness inputs named stale:*) must not steer
         control flow or extents; report once and pin them to one witness value so the path stays single"""
@@ -556,6 +568,12 @@ class Executor(object):
             at = [e]
         # one atom at a time keeps the enumeration small
         a = at[0]
+        if st.cmodel is not None:
+            v = X.evaluate(a, st.cmodel)
+            st.pc.append(X.eq(a, v, a.w))
+            st.sub[a] = v
+            st.submemo = {}
+            raise ForkSignal([st])
         vals = s.enum_values(st, a)
         if not vals:
             raise PathEnd('assume_false', 'infeasible at concretisation')
@@ -603,6 +621,13 @@ class Executor(object):
         c = s.pin_stale(st, c, 'a branch')
         if type(c) is not E:
             return bool(c), None
+        if st.cmodel is not None:
+            # concolic: follow the path of the concrete witness, keep the condition as a constraint
+            d = X.evaluate(c, st.cmodel)
+            k = c if d else X.lnot(c)
+            st.pc.append(k)
+            s.pin_eq(st, k)
+            return bool(d), None
         nc = X.lnot(c)
         if st.model is not None:
             mv = X.evaluate(c, st.model)
@@ -621,6 +646,8 @@ class Executor(object):
             other.model = m_f
             st.pc.append(c)
             st.model = m_t
+            s.pin_eq(st, c)
+            s.pin_eq(other, nc)
             return True, other
         if ok_t:
             return True, None
@@ -817,6 +844,65 @@ class Executor(object):
         return bytes(out).decode('latin1')
 
     def malloc(s, st, size, kind='heap', name=''):
+        if type(size) is E:
+            size = st.simp(size)
+        if type(size) is E:
+            size = s.pin_stale(st, size, 'an allocation size')
+        if type(size) is E and s.alloc_policy is not None and st.cmodel is None:
+            small, cap = s.alloc_policy
+            w = size.w
+            too_big = X.ult(cap, size, w)
+            ok_fit, m_fit = s.solver.check(st.pc, (X.lnot(too_big),))
+            if not ok_fit:
+                st.flags['alloc_fail'] = st.flags.get('alloc_fail', 0) + 1
+                return None
+            ok_big, m_big = s.solver.check(st.pc, (too_big,))
+            if ok_big:
+                o = st.fork()
+                o.pc.append(too_big)
+                o.model = m_big
+                st.pc.append(X.lnot(too_big))
+                st.model = m_fit
+                raise ForkSignal([st, o])
+            mid = X.ult(small, size, w)
+            ok_mid, m_mid = s.solver.check(st.pc, (mid,))
+            if ok_mid:
+                ok_small, m_small = s.solver.check(st.pc, (X.lnot(mid),))
+                # representative for the class "allocation succeeds and is larger than the small bound"
+                lo = X.ult(size, small + 4096, w)
+                ok_w, m_w = s.solver.check(st.pc, (mid, lo))
+                if not ok_w:
+                    m_w = m_mid
+                wv = X.evaluate(size, m_w)
+                if wv > (1 << 20):
+                    # too large to materialise: treat as failing allocation (stated in the evidence)
+                    st.flags['alloc_unmaterialised'] = st.flags.get('alloc_unmaterialised', 0) + 1
+                    if ok_small:
+                        o = st.fork()
+                        o.pc.append(X.lnot(mid))
+                        o.model = m_small
+                        st.pc.append(mid)
+                        st.model = m_mid
+                        st.flags['alloc_force_fail'] = 1
+                        raise ForkSignal([st, o])
+                    return None
+                states = []
+                if ok_small:
+                    o = st.fork()
+                    o.pc.append(X.lnot(mid))
+                    o.model = m_small
+                    states.append(o)
+                st.pc.append(X.eq(size, wv, w))
+                st.model = None
+                at = []
+                s.atoms(size, at)
+                if len(at) == 1 and at[0] is size:
+                    st.sub[size] = wv
+                else:
+                    st.sub[size] = wv
+                st.submemo = {}
+                st.flags['alloc_representative'] = st.flags.get('alloc_representative', 0) + 1
+                raise ForkSignal([st] + states)
         size = s.need_int(st, size, 'allocation size')
         if size > (1 << 28):
             return None
@@ -1058,6 +1144,12 @@ class Executor(object):
             v = fr.regs[v]
         if type(v) is E:
             v = st.simp(v)
+        if type(v) is E and st.cmodel is not None:
+            cvv = X.evaluate(v, st.cmodel)
+            st.pc.append(X.eq(v, cvv, w))
+            st.sub[v] = cvv
+            st.submemo = {}
+            v = cvv
         if type(v) is E:
             # fork: one state per feasible case + default
             states = []
@@ -1070,6 +1162,7 @@ class Executor(object):
                     o = st.fork()
                     o.pc.append(c)
                     o.model = m
+                    o.sub[v] = cv
                     s.goto(o.threads[o.cur].frames[-1], tl)
                     states.append(o)
             dpc = [X.lnot(c) for c in conds]
@@ -1195,7 +1288,7 @@ class Executor(object):
                 raise PathEnd('memory', 'indirect call through bad function pointer 0x%x' % fp)
         else:
             name = target
-        fn = s.prog.get(name)
+        fn = s.prog.get(name) if not name.startswith(OVERRIDE) else None
         if fn is not None:
             nf = Frame(fn)
             r2 = nf.regs
@@ -1404,6 +1497,12 @@ class Executor(object):
         s.pop_frame(st, th)
         s.throw(st, th, obj, info[0])
         return True
+
+
+# library functions that are modelled even when their header code is present in the IR
+# (output formatting is never a subject)
+OVERRIDE = ('@_ZStlsISt11char_traitsIcEERSt13basic_ostreamIcT_ES5_', '@_ZNSolsE', '@_ZSt4endl', '@_ZSt16__ostream_insert',
+            '@_ZNSo9_M_insert', '@_ZNSo5flushEv', '@_ZNSo3putEc', '@_ZSt4endlIcSt11char_traitsIcEERSt13basic_ostream')
 
 
 class _Control(object):
